@@ -62,7 +62,7 @@ def computer_cfg(rng, rate, allow_none):
         return {"name": "stft", "bank": bank, "frame_length_ms": float(rng.choice([25, 20, 12.5])), "frame_shift_ms": float(rng.choice([10, 5, 7.5])),
                 "frame_style": str(rng.choice(["centered", "causal"])), "include_energy": bool(rng.random() < 0.4), "pad_to_nearest_power_of_two": bool(rng.random() < 0.7),
                 "window_function": str(rng.choice(["hanning", "hamming", "blackman"])), "use_log": bool(rng.random() < 0.7), "use_power": bool(rng.random() < 0.5),
-                "kaldi_shift": False}
+                "kaldi_shift": bool(rng.random() < 0.4)}
     # short-integration: narrow low filters give supports of a few hundred samples, so a 2.5-5 ms shift is in the computer's scope
     bank = {"name": "gabor", "scaling_function": "mel", "num_filts": int(rng.integers(8, 13)), "sampling_rate": rate, "low_hz": 60.0, "high_hz": float(rate * 0.45)}
     cfg = {"name": "si", "bank": bank, "frame_shift_ms": float(rng.choice([2.5, 1.25])), "frame_style": str(rng.choice(["centered", "causal"])), "include_energy": bool(rng.random() < 0.4),
@@ -78,6 +78,9 @@ def make_scenario(seed, idx, tool):
     rng = rng_for(seed, "C09", idx, 0 if tool == "kaldi" else 1)
     rate = int(rng.choice([8000, 16000]))
     comp = computer_cfg(rng, rate, allow_none=(tool == "torch"))
+    if comp is not None and comp["name"] == "stft":
+        # every (frame style, kaldi_shift) combination occurs, in turn (kaldi_shift is a no-op for causal frames)
+        comp["frame_style"], comp["kaldi_shift"] = [("centered", False), ("causal", True), ("centered", True), ("causal", False)][idx % 4]
     kind = str(rng.choice(["pipeline", "pipeline", "pipeline", "dither", "order"]))
     pre, post = [], []
     if kind == "pipeline":
@@ -121,6 +124,11 @@ def make_scenario(seed, idx, tool):
         if rng.random() < 0.5:
             scn["min_duration"] = 0.04
             utts.append({"id": "tooshortdur", "n": int(0.02 * rate), "channels": utts[0]["channels"], "rate": rate, "container": "wav", "excluded": "min_duration"})
+        elif rng.random() < 0.6:
+            # a threshold exactly equal to one utterance's duration: that utterance is NOT shorter, so it is kept
+            scn["min_duration"] = 0.25
+            utts.append({"id": "exactdur", "n": int(0.25 * rate), "channels": utts[0]["channels"], "rate": rate, "container": "wav"})
+            utts.append({"id": "justbelow", "n": int(0.25 * rate) - 1, "channels": utts[0]["channels"], "rate": rate, "container": "wav", "excluded": "min_duration"})
         if rng.random() < 0.5:
             utts.insert(int(rng.integers(0, len(utts))), {"id": "otherrate", "n": int(0.1 * rate), "channels": utts[0]["channels"], "rate": 8000 if rate == 16000 else 16000,
                                                           "container": "wav", "excluded": "rate"})
@@ -281,7 +289,7 @@ def run_kaldi(scn, d, scp, syntax, seed_opt, tag, stats_path):
     if scn["channel"] != -1:
         args.append("--channel=%d" % scn["channel"])
     if scn.get("min_duration"):
-        args.append("--min-duration=%g" % scn["min_duration"])
+        args.append("--min-duration=%r" % scn["min_duration"])
     if seed_opt is not None:
         args.append("--seed=%d" % seed_opt)
     try:
